@@ -87,7 +87,7 @@ func readScen(c *Ctx) {
 	var blobs []*world.Blob
 	for i := 0; i < nb; i++ {
 		sz := world.SizeClasses[r.Weighted(4, 2, 2, 2, 2, 2, 2, 2, 2, 2, 1)]
-		blobs = append(blobs, world.Make(world.BlobID{Kind: r.Intn(3), Seed: 6000 + i, Size: sz}))
+		blobs = append(blobs, world.Make(world.BlobID{Kind: r.Intn(4), Seed: 6000 + i, Size: sz}))
 	}
 	// a directory tree stored as CAS blobs (GetTree)
 	leafA := &pb.Directory{Files: []*pb.FileNode{{Name: "a.txt", Digest: world.Digest(blobs[0].Hash, blobs[0].Size())}}}
